@@ -29,6 +29,8 @@ import zope.testrunner.runner as R  # noqa: E402
 import zope.testrunner.shuffle as ZSH  # noqa: E402
 import zope.testrunner.statistics as ZST  # noqa: E402
 
+# (the runner's coverage module replaces sys.settrace by a wrapper that ignores None)
+_SYS_SETTRACE = sys.settrace
 CHILD_SCRIPT = os.path.join(boot.VERIF, 'vsim', 'child_boot.py')
 STEP_CAP = 400000
 ANSI_RE = re.compile(r'\x1b\[[0-9;]*m')
@@ -126,6 +128,7 @@ class Sched:
         self.exit_order = []
         self.thread_excs = []
         self.hang = None
+        self.capped = False
         self.step_cost = self.mode.get('step_cost', 0.0)
         main = Task('main')
         self.main = main
@@ -175,6 +178,9 @@ class Sched:
             self.steps += 1
             if self.steps > STEP_CAP:
                 self.active = False
+                self.capped = True
+                if me is not self.main:
+                    self.main.sem.release()     # (the parked main thread reports it)
                 raise StepCap('step cap')
             cands = self._candidates()
             if not cands:
@@ -215,6 +221,8 @@ class Sched:
             nxt.sem.release()
             if me.state != 'done':
                 me.sem.acquire()
+                if self.capped and me is self.main:
+                    raise StepCap('step cap')
                 if self.hang is not None and me is self.main:
                     raise Hang(self.hang)
             return
@@ -668,6 +676,8 @@ def run_child_forked(child_args, world, plan, simpid, clock_base, fresh=False, c
         try:
             os.close(r)
             signal.alarm(60)
+            _SYS_SETTRACE(None)         # (the forking thread may run under the pre-emption tracer)
+            real_threading.settrace(None)
             # a real child is a fresh interpreter
             if cwd is not None:
                 os.chdir(cwd)       # Popen(cwd=...); cwd=None: the parent's directory right now
@@ -893,6 +903,33 @@ class SimPopen:
         self.wait()
 
 
+def make_preempt_tracer(env):
+    """Line-level pre-emption: a trace function for the parent's threads under which every line
+    of zope/testrunner/runner.py executed while other tasks exist is a possible scheduling point
+    (taken with probability env.line_preempt, drawn from a PRNG of its own).  The baton holder
+    is the only thread that runs Python code, so the draws happen in one well defined order."""
+    sched = env.sched
+    rng = env.preempt_rng
+    p = env.line_preempt
+    budget = env.preempt_budget      # (shared by all threads of the execution)
+    suffix = os.path.join('zope', 'testrunner', 'runner.py')
+
+    def local(frame, event, arg):
+        if event == 'line' and sched.active and len(sched.tasks) > 1 and \
+                any(t.state != 'done' for t in sched.tasks if t is not sched.current):
+            if budget[0] > 0 and rng.random() < p:
+                budget[0] -= 1
+                sched.probe('line_preemptions')
+                sched.switch_point()
+        return local
+
+    def tracer(frame, event, arg):
+        if frame.f_code.co_filename.endswith(suffix):
+            return local
+        return None
+    return tracer
+
+
 class SimThread:
     """threading.Thread stand-in: a real thread that only runs while it holds the baton.
     `_env` is bound in a per-execution subclass (install_seams), so the runner may also
@@ -932,6 +969,8 @@ class SimThread:
     def _body(self):
         s = self._env.sched
         self.task.sem.acquire()
+        if getattr(self._env, 'line_preempt', 0):
+            _SYS_SETTRACE(make_preempt_tracer(self._env))
         try:
             self.run()
         except BaseException as e:  # noqa
@@ -940,6 +979,7 @@ class SimThread:
             s.thread_excs.append((self.name, type(e).__name__, str(e)[:200]))
             s.log.append(('thread-exc', self.name, type(e).__name__))
         finally:
+            _SYS_SETTRACE(None)
             self.task.state = 'done'
             if s.active:
                 try:
@@ -1073,6 +1113,11 @@ class TagStream(io.TextIOBase):
 # environment of one execution
 
 
+# properties whose executions have worker threads in the parent: one seed in four runs them under
+# line-level pre-emption by default (knob 'line_preempt' overrides)
+PREEMPT_PROPS = ('C01', 'C02', 'C03', 'C06', 'C07', 'C10', 'C11', 'C12', 'C16')
+
+
 class Env:
     def __init__(self, spec, sched_mode, knobs):
         self.spec = spec
@@ -1098,6 +1143,14 @@ class Env:
         if sc is None:
             sc = {1: 0.003, 2: 0.0007}.get((spec.get('seed') or 0) % 4, 0.0)
         self.sched.step_cost = sc
+        # line-level pre-emption inside the runner's own code (see make_preempt_tracer)
+        lp = knobs.get('line_preempt')
+        if lp is None and spec.get('property') in PREEMPT_PROPS and \
+                (spec.get('seed') or 0) % 4 == 3:
+            lp = (0.02, 0.1, 0.3)[((spec.get('seed') or 0) // 4) % 3]
+        self.line_preempt = lp or 0
+        self.preempt_budget = [knobs.get('preempt_budget', 1500)]
+        self.preempt_rng = random.Random((spec.get('seed') or 0) * 7919 + 13)
         ya = knobs.get('yield_is_alive')
         self.yield_is_alive = bool(ya) if ya is not None else (spec.get('seed') or 0) % 3 != 0
         fc = knobs.get('fresh_child')
@@ -1571,6 +1624,9 @@ def execute(spec, options, sched_mode=None, knobs=None, defaults=None, label='ma
     res.raised = None
     res.verdict = None
     res.hang = None
+    outer_trace = sys.gettrace()
+    if env.line_preempt:
+        _SYS_SETTRACE(make_preempt_tracer(env))
     try:
         try:
             if found_suites is not None:
@@ -1591,6 +1647,8 @@ def execute(spec, options, sched_mode=None, knobs=None, defaults=None, label='ma
             res.raised = (type(e).__name__, str(e)[:300],
                           traceback.format_exc()[-1500:])
     finally:
+        if env.line_preempt:
+            _SYS_SETTRACE(outer_trace)
         res.stdout_after = sys.stdout
         res.stderr_after = sys.stderr
         # (rt.orig_*: the streams the world expects - a test may have wrapped them for good)
